@@ -107,8 +107,11 @@ def dispatchReq (I : Instance) (s : State) (j p : Nat) (m : Option Int) : Except
     | .ok mm => dispatch I s j p mm
 
 /-- `Schedule.makespan`: reads the last operation of each machine. -/
-def makespan (s : State) : Int :=
-  s.sched.foldl (fun acc ms => match ms.getLast? with | none => acc | some l => max acc l.end_) 0
+def makespanStep (acc : Int) (ms : List SOp) : Int :=
+  match ms.getLast? with
+  | none => acc
+  | some l => max acc l.end_
+def makespan (s : State) : Int := s.sched.foldl makespanStep 0
 
 /-- `Schedule.num_scheduled_operations`. -/
 def numScheduled (s : State) : Nat := (s.sched.map List.length).sum
